@@ -1,5 +1,6 @@
 import Pycoin.Proofs.BIP32Basic
 import Pycoin.Proofs.BIP32Cache
+import Pycoin.Proofs.BIP32Family
 import Pycoin.Proofs.BIP32Commute
 import Pycoin.Proofs.ElectrumCommute
 import Pycoin.Proofs.BIP32Secp
@@ -447,6 +448,35 @@ descendants each keep their own cache — the answers are those of the uncached 
 theorem C09_cache_transparent_paths (g : Gen) (fuel : Nat) (root : Node) (paths : List (List Char)) :
     pathRun g fuel root [] paths = paths.map (subkeyForPath g fuel root) :=
   pathRun_eq paths [] (fun _ _ h => by cases h)
+
+/-! ## a family of objects derived from one root: one cache per object -/
+
+/-- **cache_transparent_family.** A history over the family of objects derived from one root — each step is
+`public_copy()`, `subkey(i, is_hardened, as_private)` or `subkey_for_path(text)` on *any object created so far* (the
+root, a public copy, a child handed out by an earlier step: children are shared objects that keep their own cache;
+`public_copy()` builds a fresh object with an empty cache) — gives, step by step, the answers of the same history run
+without any cache, where every step derives afresh from the node value of the object it names. -/
+theorem C09_cache_transparent_family (g : Gen) (fuel : Nat) (root : Node) (steps : List FStep) :
+    famRun g fuel (Fam.root root) steps = famRun0 g fuel [some root] steps :=
+  famRun_eq steps (Fam.root root) [some root]
+    (by
+      intro pid n c h k j hm
+      cases pid with
+      | zero => simp [Fam.root] at h; obtain ⟨_, rfl⟩ := h; cases hm
+      | succ q => simp [Fam.root] at h)
+    ⟨⟨[], rfl⟩, trivial⟩
+
+/-- … and in the cache-free semantics a public-only object never yields a secret exponent or a hardened child:
+its public copy, every `subkey` answer and every `subkey_for_path` answer are public-only, and a `subkey` call that
+succeeds was not hardened.  With `C09_cache_transparent_family`: no object whose lineage passed through
+`public_copy()` ever exposes a secret, whatever was memoised before on any other object. -/
+theorem C09_family_public_stays_public (g : Gen) (fuel : Nat) (n : Node) (hn : n.secretExponent = none) :
+    (∀ m, n.publicCopy g = .ok m → m.secretExponent = none) ∧
+    (∀ i hardened p m, subkey0 g fuel n i hardened p = .ok m → m.secretExponent = none ∧ hardened = false) ∧
+    (∀ path m, subkeyForPath g fuel n path = .ok m → m.secretExponent = none) := by
+  refine ⟨?_, fun i hd p m h => subkey0_public hn h, fun path m h => subkeyForPath_public hn h⟩
+  intro m h
+  rw [publicCopy_ok h]
 
 /-! ## the shipped generator, instantiated -/
 
